@@ -19,6 +19,7 @@ VALUES = {
     'lookalike': 'v</saml:AttributeValue><saml:AttributeValue>w', 'lead-ws': '  lead', 'trail-ws': 'trail  ', 'inner-ws': 'in  ner\ttab',
     'backslash-d': 'EXAMPLE\\derek', 'win-path': 'C:\\new\\table\\readme.txt', 'double-backslash': 'a\\\\b', 'group-ref': 'x\\1y\\g<0>z',
     'dollar': '$1 ${x} \\$', 'percent': '100% %s %(x)s', 'braces': '{0} {x} }{',
+    'bytes-ascii': b'Derek', 'bytes-utf8': 'J\u00e4ter \u20ac'.encode('utf-8'),
     'newline': 'line1\nline2', 'latin': 'é', 'euro': '€uro', 'astral': 'smile\U0001F600', 'long': 'L' * 4096, 'pi': '<?x y?>', 'entity-ref': '&lt;&#65;',
 }
 ALG = dict(forge.SIG_ALGS)
@@ -32,21 +33,32 @@ POLICIES = {
 LIFETIME = {'none': 3600, 'default-5min': 300, 'default-1day': 86400, 'per-sp-partial': 300, 'per-sp-own': 120}
 
 
-def world_for(policy, wants):
+SPOPTS = {
+    None: {},
+    # the fork's destination pattern option (search semantics), not anchored at the start of the URL
+    'dest-regex-mid': {'valid_destination_regex': r'spx\.example/acs/[a-z]+$'},
+    # consumer endpoints spelled as bare locations (documented spelling; the metadata binds them to HTTP-POST) on an
+    # SP whose binding preferences for that service start with another binding
+    'bare-acs': {'acs': [ACS_POST], 'top': {'preferred_binding': {'assertion_consumer_service': [REDIR, POST]}}},
+}
+
+
+def world_for(policy, wants, spopt=None):
     """(idp, sp) configured from each other's *generated* metadata."""
-    k = (policy, wants)
+    k = (policy, wants, spopt)
     if k in _c:
         return _c[k]
     from saml2_tophat.config import SPConfig, IdPConfig
+    extra = SPOPTS[spopt]
     spc = SPConfig()
     spc.load(world.sp_config(TMP[0], [], want_response_signed=wants[0], want_assertions_signed=wants[1],
-                             want_assertions_or_response_signed=wants[2]))
+                             want_assertions_or_response_signed=wants[2], **extra))
     idc = IdPConfig()
     idc.load(world.idp_config(TMP[0], [], policy=POLICIES[policy]))
     sp_md = world.generated_metadata(spc)
     idp_md = world.generated_metadata(idc)
     sp = world.make_sp(TMP[0], [idp_md], want_response_signed=wants[0], want_assertions_signed=wants[1],
-                       want_assertions_or_response_signed=wants[2])
+                       want_assertions_or_response_signed=wants[2], **extra)
     idp = world.make_idp(TMP[0], [sp_md], policy=POLICIES[policy])
     _c['sp_md'] = sp_md
     _c[k] = (idp, sp)
@@ -117,6 +129,11 @@ def cells(thorough):
             out.append(dict(base, values=vals, count=count, nf=nf, sr=sr, sa=sa, enc=enc, wants=(sr, sa, False), extra_attr=True,
                             binding=binding))
     out.append(dict(base, values=(), count=0))
+    # A2. SP configuration variants: destination pattern option, bare-location endpoints with binding preferences
+    for spopt, (sr, sa, enc), binding in itertools.product(('dest-regex-mid', 'bare-acs'), ((True, False, False), (False, True, True), (True, True, False)), (POST, REDIR)):
+        if spopt == 'bare-acs' and binding != POST:
+            continue
+        out.append(dict(base, spopt=spopt, sr=sr, sa=sa, enc=enc, wants=(sr, sa, False), binding=binding))
     # B2. special identities: values carried as a NameID child (eduPersonTargetedID), two identity keys that the
     #     name mapping sends to the same attribute (spellings differing in case)
     for special, (sr, sa, enc), binding in itertools.product(('eptid', 'alias-case', 'eptid+alias-case'), ((True, False, False), (False, True, True), (True, True, False)),
@@ -183,7 +200,7 @@ def evaluate(c):
     env.Clock.set(env.BASE)
     env.reset_rng()
     try:
-        idp, sp = world_for(c['policy'], tuple(c['wants']))
+        idp, sp = world_for(c['policy'], tuple(c['wants']), c.get('spopt'))
     except Exception as e:
         return {'ok': False, 'why': 'world-construction-failed:%s' % type(e).__name__}
     vals = [VALUES[v] for v in c['values']]
@@ -243,7 +260,7 @@ def evaluate(c):
     bad = []
     if idn['name_id'][0] != subj or idn['name_id'][1] != NF[c['nf']]:
         bad.append('name-id-differs')
-    want_ava = {k: sorted(x.strip() for x in v) for k, v in identity.items()}
+    want_ava = {k: sorted((x.decode('utf-8') if isinstance(x, bytes) else x).strip() for x in v) for k, v in identity.items()}
     for k, v in expect_override.items():
         if v is None:
             want_ava.pop(k, None)
